@@ -30,6 +30,11 @@ type c13Case struct {
 	Choices  []int        `json:"choices,omitempty"`
 	History  [][]string   `json:"history,omitempty"`
 	TLS      bool         `json:"tls,omitempty"` // state: connections arrive over the TLS port
+	// Stop: the application calls Server.Stop while the clients are being served (at
+	// any point the schedule allows, also between two handler calls of one
+	// composite command). Requests cut off by it are no failures; every handler
+	// call that does happen must still see its connection's state.
+	Stop bool `json:"stop,omitempty"`
 }
 
 // c13Model is the per-client model of connection-scoped state.
@@ -68,7 +73,7 @@ func c13ScriptSet(i int) [][][]string {
 	}
 }
 
-func c13NewWorld(scripts [][][]string, password bool, reconn []int) *c13World {
+func c13NewWorld(scripts [][][]string, password bool, reconn []int, stop bool) *c13World {
 	w := &c13World{password: password}
 	w.model = make([]*c13Model, len(scripts))
 	for i := range w.model {
@@ -79,6 +84,9 @@ func c13NewWorld(scripts [][][]string, password bool, reconn []int) *c13World {
 		d := srv.NewDouble()
 		w.double = d
 		d.OnCall = func(conn *redis.Conn, c srv.Call) {
+			if stop {
+				vrt.Yield("handler") // Stop may run between any two handler calls
+			}
 			// which client does this call belong to?
 			ci := -1
 			for _, a := range c.Args {
@@ -135,7 +143,9 @@ func c13NewWorld(scripts [][][]string, password bool, reconn []int) *c13World {
 			// this reply came over a fresh connection: defaults
 		}
 		if o.Status != "ok" {
-			w.fail("request-"+o.Status, fmt.Sprintf("client %d request %v: %s", ci, cmd, o.String()))
+			if !stop {
+				w.fail("request-"+o.Status, fmt.Sprintf("client %d request %v: %s", ci, cmd, o.String()))
+			}
 			return
 		}
 		allowed := md.auth
@@ -182,7 +192,10 @@ func c13NewWorld(scripts [][][]string, password bool, reconn []int) *c13World {
 func c13Explorer(cs c13Case, bound int) *sched.Explorer {
 	x := &sched.Explorer{Bound: bound}
 	x.New = func() *sched.Run {
-		w := c13NewWorld(cs.Scripts, cs.Password, cs.Reconn)
+		w := c13NewWorld(cs.Scripts, cs.Password, cs.Reconn, cs.Stop)
+		if cs.Stop {
+			w.mc.Background = func(m *mcWorld) { m.Srv.Stop() }
+		}
 		// a new connection starts at the defaults
 		w.mc.OnReconnect = func(ci int) {
 			w.model[ci] = &c13Model{auth: !cs.Password}
@@ -198,7 +211,7 @@ func c13Explorer(cs c13Case, bound int) *sched.Explorer {
 					return sched.Verdict{Obs: "start-error " + w.mc.StartErr.Error()}
 				}
 				for i, sc := range cs.Scripts {
-					if len(w.mc.Replies[i]) != len(sc) && len(w.viol) == 0 {
+					if len(w.mc.Replies[i]) != len(sc) && len(w.viol) == 0 && !cs.Stop {
 						w.fail("client-starved", fmt.Sprintf("client %d got %d of %d replies (dial: %s)", i, len(w.mc.Replies[i]), len(sc), w.mc.Dialed[i]))
 					}
 				}
@@ -385,6 +398,28 @@ func c13Run(c *fw.Ctx) {
 				cs := c13Case{Kind: "sched", Scripts: scripts, Password: password, Reconn: reconn}
 				c13Explore(c, cs, bound)
 			}
+		}
+	}
+	// Stop while composite commands (several handler calls each) are in flight
+	for _, password := range []bool{false, true} {
+		for nc := 1; nc <= 2; nc++ {
+			if !c.Mine() {
+				continue
+			}
+			var scripts [][][]string
+			for i := 0; i < nc; i++ {
+				k := "k" + strconv.Itoa(i)
+				sc := [][]string{{"SELECT", strconv.Itoa(3 + i)}, {"MSET", k, "1", k, "2", k, "3"}, {"MGET", k, k}}
+				if password {
+					sc = append([][]string{{"AUTH", c13Pass}}, sc...)
+				}
+				scripts = append(scripts, sc)
+			}
+			b := 3
+			if nc == 2 && c.Quick() {
+				b = 2
+			}
+			c13Explore(c, c13Case{Kind: "sched", Scripts: scripts, Password: password, Reconn: make([]int, nc), Stop: true}, b)
 		}
 	}
 	if c.Thorough() {
